@@ -303,34 +303,59 @@ fn record(args: &Args) {
                 count += 1;
                 // mutated and crafted texts
                 let mut texts: Vec<(String, String)> = vec![];
-                for _ in 0..2 {
-                    texts.push(mutate_text(&mut rng, &text));
-                }
+                texts.push(mutate_text(&mut rng, &text)); // random bulk: one mutation per address
                 if !data.is_empty() {
                     let d5 = to5(&data, None);
                     let own = HRPS.iter().position(|h| text.starts_with(&format!("{}{}1", h, sfx))).unwrap_or(0);
                     let other = HRPS[(own + 1 + rng.gen_range(0..13)) % 14];
-                    match rng.gen_range(0..6) {
-                        0 => texts.push(("hrp-swap".into(), craft(&format!("{}{}", other, sfx), &d5, M))),
-                        1 => texts.push(("bech32-not-m".into(), craft(&text[..text.rfind('1').unwrap()], &d5, 1))),
-                        2 => texts.push(("nonzero-padding".into(), craft(&text[..text.rfind('1').unwrap()], &to5(&data, Some(0x1f)), M))),
-                        3 => {
-                            let mut d = d5.clone();
-                            d.push(0); // one more 5-bit group: 5 or more left-over bits
-                            texts.push(("extra-group".into(), craft(&text[..text.rfind('1').unwrap()], &d, M)));
+                    // hostile texts with a valid checksum: every kind on the network whose suffix contains the separator character, one elsewhere
+                    let kinds: Vec<usize> = if ni == 3 { (0..6).collect() } else { vec![rng.gen_range(0..6)] };
+                    for kind in kinds {
+                        match kind {
+                            0 => texts.push(("hrp-swap".into(), craft(&format!("{}{}", other, sfx), &d5, M))),
+                            1 => texts.push(("bech32-not-m".into(), craft(&text[..text.rfind('1').unwrap()], &d5, 1))),
+                            2 => texts.push(("nonzero-padding".into(), craft(&text[..text.rfind('1').unwrap()], &to5(&data, Some(0x1f)), M))),
+                            3 => {
+                                let mut d = d5.clone();
+                                d.push(0); // one more 5-bit group: 5 or more left-over bits
+                                texts.push(("extra-group".into(), craft(&text[..text.rfind('1').unwrap()], &d, M)));
+                            }
+                            4 => texts.push(("upper-hrp-only".into(), {
+                                let i = text.rfind('1').unwrap();
+                                format!("{}{}", text[..i].to_uppercase(), &text[i..])
+                            })),
+                            _ => texts.push(("no-suffix-network".into(), craft(&HRPS[own].to_string(), &d5, M))),
                         }
-                        4 => texts.push(("upper-hrp-only".into(), {
-                            let i = text.rfind('1').unwrap();
-                            format!("{}{}", text[..i].to_uppercase(), &text[i..])
-                        })),
-                        _ => texts.push(("no-suffix-network".into(), craft(&HRPS[own].to_string(), &d5, M))),
                     }
+                    texts.push(("upper".into(), text.to_uppercase()));
                 }
                 for (cls, t) in texts {
                     let r = decode_text(sfx, &t);
                     out.emit(&json!({"k": "text", "cls": cls, "sfx": cps(sfx), "text": cps(&t), "r": r, "panic": r["panic"]}));
                     count += 1;
                 }
+            }
+        }
+        // ---------------- data-length and first-byte boundaries (every round, never left to the random choice)
+        for e in [13u8, 93, 193, 88] {
+            for (cls, data) in [("len0", vec![]), ("len1", vec![e]), ("len29", { let mut d = vec![7u8; 29]; d[0] = e; d }),
+                                ("len31", { let mut d = vec![7u8; 31]; d[0] = e; d }), ("len30-zero", { let mut d = vec![0u8; 30]; d[0] = e; d }),
+                                ("len30-ones", { let mut d = vec![0xffu8; 30]; d[0] = e; d }),
+                                ("first0", vec![0u8; 30]), ("first12", { let mut d = vec![1u8; 30]; d[0] = 12; d }),
+                                ("first14", { let mut d = vec![1u8; 30]; d[0] = 14; d }), ("first255", vec![255u8; 30])] {
+                let sfx = &nets[0];
+                let enc = AddressBech32Encoder::new(&network(sfx));
+                match catch(|| enc.encode(&data)) {
+                    Ok(Ok(text)) => {
+                        let same = decode_text(sfx, &text);
+                        let others: Vec<J> = nets.iter().skip(1).map(|o| { let r = decode_text(o, &text); json!({"sfx": cps(o), "ok": r["ok"], "panic": r["panic"]}) }).collect();
+                        let panic = same["panic"] == true || others.iter().any(|o| o["panic"] == true);
+                        out.emit(&json!({"k": "addr", "cls": cls, "sfx": cps(sfx), "data": data, "encok": true, "text": cps(&text), "dec": same, "others": others, "panic": panic}));
+                    }
+                    Ok(Err(_)) => out.emit(&json!({"k": "addr", "cls": cls, "sfx": cps(sfx), "data": data, "encok": false, "text": [], "dec": {"ok": false, "bytes": [], "typed": {}}, "others": [], "panic": false})),
+                    Err(_) => out.emit(&json!({"k": "addr", "cls": cls, "sfx": cps(sfx), "data": data, "panic": true})),
+                }
+                count += 1;
             }
         }
         // ---------------- transaction hashes
@@ -423,18 +448,26 @@ fn record(args: &Args) {
         texts.push(("string:65".into(), too_long));
         texts.push(("bytes:65".into(), format!("[{}]", "ab".repeat(65))));
         texts.push(("bytes:64-upper".into(), format!("[{}]", "AB".repeat(64))));
+        texts.push(("string:64".into(), format!("<{}>", "Z".repeat(64))));
+        texts.push(("string:1".into(), "<_>".to_string()));
+        texts.push(("bytes:64".into(), format!("[{}]", "0f".repeat(64))));
+        texts.push(("bytes:1".into(), "[00]".to_string()));
+        texts.push(("bytes:odd".into(), format!("[{}]", "0".repeat(127))));
+        for v in [0u64, 1, 9, 10, u64::MAX - 1, u64::MAX] { texts.push(("int:boundary".into(), format!("#{}#", v))); }
+        texts.push(("int:2^64".into(), "#18446744073709551616#".to_string()));
+        texts.push(("int:leading-zero-max".into(), "#018446744073709551615#".to_string()));
         for (cls, t) in texts {
             let r = parse_lid(&t);
             out.emit(&json!({"k": "lid", "cls": cls, "s": cps(&t), "r": r, "panic": r["panic"]}));
             count += 1;
         }
         // ---------------- global ids
-        for sfx in nets.iter().take(3) {
+        for (sfx, first) in nets.iter().take(3).flat_map(|n| [93u8, 154, 13, 193].into_iter().map(move |e| (n, e))) {
             let net = network(sfx);
             let enc = AddressBech32Encoder::new(&net);
             let dec = AddressBech32Decoder::new(&net);
             let mut res: Vec<u8> = (0..30).map(|_| rng.gen()).collect();
-            res[0] = [93u8, 154, 13, 193][rng.gen_range(0..4)]; // resource managers, and two non-resource entities
+            res[0] = first; // both resource-manager entities, and two non-resource entities
             let lid = NonFungibleLocalId::integer(rng.gen_range(0..100000));
             let addr = enc.encode(&res).unwrap();
             let forms = vec![
